@@ -68,8 +68,9 @@ void harness(void) {
 #endif
 	res = KSI_TlvElement_serialize(&el, buf, buf_size, len, opt);
 	if (res == KSI_OK) REACH("serialized");
-#ifndef EL_QUERY
 	if (res != KSI_OK) REACH("refused");
+#ifdef EL_NESTED
+	if (res == KSI_INVALID_FORMAT && !g_el_any_bad) REACH("content > 0xffff refused");
 #endif
 #ifdef EL_NESTED
 	if (res == KSI_OK && g_el_len > 3 && g_el_w == 1) REACH("several children");
@@ -94,7 +95,7 @@ void harness(void) {
 	size_t plen = nondet_size(); _Bool query = nondet_bool(); size_t *len = nondet_bool() ? &len_out : NULL;
 	const KSI_TlvElement *element = &el;
 	memset(&el, 0, sizeof(el));
-	g_el_len = 0; g_el_calls = 0; g_el_sum = 0;
+	g_el_len = 0; g_el_calls = 0; g_el_sum = 0; g_el_cur_bad = 0; g_el_any_bad = 0;
 #ifdef EL_GROUP_PAYLOAD
 	g_el_k = nondet_size(); g_mem_k = nondet_size(); g_mem_k2 = nondet_size();    /* witnesses: arbitrary (plain mode zero-initialises globals) */
 #else
@@ -113,11 +114,14 @@ void harness(void) {
 #endif
 	res = KSI_TlvElement_serialize(&el, buf, buf_size, len, opt);
 #ifndef EL_GROUP_PAYLOAD
-	__CPROVER_assert(res == KSI_OK || res == KSI_BUFFER_OVERFLOW, "C1 result code");
+	__CPROVER_assert(res == KSI_OK || res == KSI_BUFFER_OVERFLOW || res == KSI_INVALID_FORMAT, "C1 result code");
+	__CPROVER_assert((res == KSI_INVALID_FORMAT) == (EL_HDR(opt) && EL_DAT(element) > SPEC_TLV_MAX_LEN && (buf == NULL || buf_size > EL_DAT(element))),
+			"C1 INVALID_FORMAT exactly for a payload that exceeds the 16-bit length field (and the buffer holds the payload)");
 	__CPROVER_assert(IMPLIES(res == KSI_OK && len != NULL, len_out == EL_TOT(element, opt)), "C2 reported size = payload + header, header 2 octets exactly when tag <= 0x1f and payload <= 0xff; same in size-query mode");
 	__CPROVER_assert(IMPLIES(res != KSI_OK && len != NULL, len_out == len_old), "C2 size untouched on failure");
 	__CPROVER_assert(IMPLIES(res == KSI_OK && buf != NULL, EL_TOT(element, opt) <= buf_size), "C3 nothing that does not fit is reported as written");
-	__CPROVER_assert(IMPLIES(buf == NULL || (EL_TOT(element, opt) <= buf_size && buf_size > EL_DAT(element)), res == KSI_OK), "C5 succeeds whenever it fits (+1 spare octet)");
+	__CPROVER_assert(IMPLIES((buf == NULL || (EL_TOT(element, opt) <= buf_size && buf_size > EL_DAT(element))) && (!EL_HDR(opt) || EL_DAT(element) <= SPEC_TLV_MAX_LEN), res == KSI_OK),
+			"C5 succeeds whenever the payload is encodable (<= 0xffff or no header) and it fits (+1 spare octet)");
 	__CPROVER_assert(IMPLIES(res == KSI_OK && EL_HDR(opt), EL_DAT(element) <= SPEC_TLV_MAX_LEN), "C6 payload longer than 0xffff is refused");
 	if (res == KSI_OK && buf != NULL && EL_HDR(opt)) {
 		size_t p = EL_POS(element, opt, buf_size);
@@ -133,6 +137,9 @@ void harness(void) {
 		__CPROVER_assert(buf[EL_POS(element, opt, buf_size) + (EL_TOT(element, opt) - EL_DAT(element)) + g_el_k] == el.ptr[el.ftlv.hdr_len + g_el_k], "C8 payload octets arrive unchanged after the header");
 #endif
 	if (res == KSI_OK) REACH("serialized"); else REACH("refused");
+#if !defined(EL_OPT) || (EL_OPT & 1) == 0
+	if (res == KSI_INVALID_FORMAT) REACH("payload > 0xffff refused");
+#endif
 	if (res == KSI_OK && buf != NULL && el.ftlv.dat_len == 0x100) REACH("payload 0x100 written");
 	if (res == KSI_OK && buf != NULL && el.ftlv.dat_len == 0xff && el.ftlv.tag == 0x1f) REACH("largest short form written");
 #ifdef EL_GROUP_PAYLOAD
@@ -224,7 +231,7 @@ void harness(void) {
 	__CPROVER_assume(len <= EL_MAX_INPUT);
 	el.ptr = malloc(hdr + len); __CPROVER_assume(el.ptr != NULL);
 	el.ftlv.hdr_len = hdr; el.ftlv.dat_len = len; el.ref = 1;
-	g_eb_base = el.ptr + hdr; g_eb_len = len; g_eb_live = 0; g_eb_freed = 0; g_eb_off = 0; g_eb_count = 0; g_eb_rejected = NULL;
+	g_eb_base = el.ptr + hdr; g_eb_len = len; g_eb_live = 0; g_eb_freed = 0; g_eb_off = 0; g_eb_count = 0; g_eb_rejected = NULL; g_elfree_calls = 0; g_elfree_arg = NULL;
 	el.subList = nondet_bool() ? &g_el_list : NULL;
 	res = convertToNested(&el);
 	if (res == KSI_OK && el.subList == &g_eb_list) REACH("payload expanded");
